@@ -433,7 +433,7 @@ func vC01Gen(r *vRng, thorough bool) vSx {
 	}
 	budget := 140000 // bytes of payload per case (quick)
 	if thorough {
-		budget = 3000000
+		budget = 400000
 	}
 	var ops []vSx
 	for i := 0; i < n; i++ {
@@ -486,12 +486,7 @@ func vC01Gen(r *vRng, thorough bool) vSx {
 			case 29, 30, 31:
 				ln = r.rng(1, 1000)
 			case 32:
-				if thorough && r.chance(1, 20) {
-					ln = 1<<24 - 1
-					budget += ln
-				} else {
-					ln = r.rng(1, 70000)
-				}
+				ln = r.rng(1, 70000)
 			default:
 				ln = r.rng(1, 3*128)
 			}
@@ -555,7 +550,19 @@ func TestVerifC01(t *testing.T) {
 	for _, c := range k.corpus() {
 		runOne(c)
 	}
-	n := k.N(600, 6000)
+	if k.thorough() && k.nOverr == 0 {
+		// the 24-bit length limit: 2^24-1 bytes in 131072 chunks of 128, and in 256 chunks of 65536 with
+		// an extended timestamp; a long script keeps these two out of the kernel-evaluated sample
+		var script []vSx
+		for i := 0; i < 700; i++ {
+			script = append(script, vI(4096+i%3))
+		}
+		big := vL(vI(1<<24-1), vI(17))
+		runOne(vL(vI(0), vLs(script), vL(), vL(vL(vI(0), vI(5), vU(1), vI(9), vU(1), big))))
+		runOne(vL(vI(1), vLs(script), vL(), vL(vL(vI(0), vI(2), vU(0), vI(1), vU(0), vB(vC01Be4(65536))),
+			vL(vI(0), vI(320), vU(0x7fffffff), vI(8), vU(0xffffffff), big), vL(vI(0), vI(5), vU(0), vI(9), vU(1), vL(vI(1), vI(0))))))
+	}
+	n := k.N(400, 2500)
 	for i := 0; i < n; i++ {
 		runOne(vC01Gen(k.rnd, k.thorough()))
 	}
